@@ -22,9 +22,10 @@ ASSUMPTIONS = [
     "for mesh bases the line carries the elements of the constructed MeshBasis (its pruning is C05's subject)",
     "order of permutations inside one level is not compared (canonical forms sort complete levels)",
 ]
-PARTIAL = ["cache invariant by induction over query histories (buildOne_correct, ensureLevel_correct, "
-           "levels_history_independent, av_refines_spec) - proof in progress; this run evaluates it by correspondence only",
-           "is_subclass_correct (classical bases) - evaluated by correspondence and bounded oracle"]
+PARTIAL = ["is_subclass with a mesh basis on the right (uses p1.get_perm()): evaluated by correspondence only "
+           "(is_subclass_correct is proved for classical bases)",
+           "the driver's string layer and iterator registry (parsing, canonical printing, St.yielded) is glue: the Proc-level "
+           "statements (av_refines_spec, first_correct, upTo_iter_correct, iterTake_pieces) are proved, the glue is evaluated"]
 TRUSTED = ["dict insertion order / frozenset iteration order are not relied on: outputs are order-insensitive canonical forms"]
 
 MAXLEN_ORACLE = 9
@@ -262,16 +263,38 @@ def oracle_hist(ops):
     return outs
 
 
+MESH_FIRST_BOUND = 6
+
+
 def first_k(c, k):
+    """the k smallest members in (length, lex) order.  A classical class is closed under deletion, so
+    an empty level ends it; a mesh class may have an empty level followed by non-empty ones, so the
+    search continues (up to MESH_FIRST_BOUND, which the generators respect)"""
     res = []
     n = 0
+    mesh = any(b[0] == "m" for b in c.basis)
     while len(res) < k:
         lv = c.level(n)
         if not lv:
-            break
+            if not mesh or n >= MESH_FIRST_BOUND:
+                break
         res.extend(lv)
         n += 1
     return res[:k]
+
+
+def mesh_gap(basis_str, upto=5):
+    """does this mesh class have an empty level followed by a non-empty one (within `upto`)?"""
+    basis = parse_basis(basis_str)
+    oc = OracleClass(";".join(sorted(repr(b) for b in basis)), basis)
+    sizes = [len(oc.level(i)) for i in range(upto + 1)]
+    seen_empty = False
+    for s in sizes:
+        if s == 0:
+            seen_empty = True
+        elif seen_empty:
+            return True
+    return False
 
 
 # ------------------------------------------------------------------ implementation side
@@ -324,7 +347,7 @@ def impl_hist(ops):
             if k == "E":
                 return fseq(classes[f[1]].enumeration(int(f[2])))
             if k == "F":
-                return canon_partial(classes[f[1]].first(int(f[2])), members[f[1]])
+                return canon_partial(classes[f[1]].first(int(f[2])), members[f[1]])  # f[3] (tag) unused
             if k == "B":
                 return fbool(classes[f[1]].is_subclass(classes[f[2]]))
             if k == "K":
@@ -433,9 +456,10 @@ def rand_mesh_basis_line(rng):
     k = rng.randrange(1, 3)
     patts = []
     for _ in range(k):
-        n = rng.randrange(1, 4)
+        n = rng.randrange(1, 4) if rng.random() < 0.93 else 0
         p = rand_perm(rng, n)
-        cells = [(x, y) for x in range(n + 1) for y in range(n + 1) if rng.random() < rng.choice([0.1, 0.3, 0.6])]
+        dens = rng.choice([0.1, 0.3, 0.6, 1.0])
+        cells = [(x, y) for x in range(n + 1) for y in range(n + 1) if rng.random() < dens]
         if rng.random() < 0.3:
             patts.append(P(p))
         else:
@@ -453,6 +477,7 @@ def random_history(rng, maxlen, allow_mesh=True):
     ops = []
     names = []
     ismesh = {}
+    gap = {}
     iters = []
     nclasses = rng.randrange(1, 4)
     bases = []
@@ -485,6 +510,7 @@ def random_history(rng, maxlen, allow_mesh=True):
                 ops.append("N:%s:%s" % (name, b))
             names.append(name)
             ismesh[name] = "/" in b
+            gap[name] = ismesh[name] and mesh_gap(b)
             continue
         c = rng.choice(names)
         # mesh classes are built by filtering all n! permutations: keep their lengths small
@@ -502,7 +528,10 @@ def random_history(rng, maxlen, allow_mesh=True):
         elif r < 0.65:
             ops.append("E:%s:%d" % (c, min(n, ml - 1)))
         elif r < 0.71:
-            ops.append("F:%s:%d" % (c, rng.randrange(0, kmax)))
+            if gap[c]:      # first() on a mesh class with a gap: only in the dedicated stream (known finding)
+                ops.append("C:%s:%d" % (c, n))
+            else:
+                ops.append("F:%s:%d" % (c, rng.randrange(0, kmax)))
         elif r < 0.76:
             ops.append("B:%s:%s" % (c, rng.choice(names)))
         elif r < 0.79:
@@ -511,7 +540,7 @@ def random_history(rng, maxlen, allow_mesh=True):
             ops.append("K:%s" % c)
         elif r < 0.90 and len(iters) < 4:
             it = "i%d" % len(iters)
-            kind = rng.choice("LUF")
+            kind = rng.choice("LU" if gap[c] else "LUF")
             arg = n if kind == "L" else (min(n, ml - 1) if kind == "U" else rng.randrange(0, kmax))
             ops.append("O:%s:%s:%s:%d" % (it, c, kind, arg))
             iters.append(it)
@@ -584,6 +613,19 @@ def run(ctx):
     R = 1500 if quick else 20000
     maxlen = 7 if quick else 8
     ctx.compare("random-histories", [random_history(rng, maxlen) for _ in range(R)])
+    # first() on mesh classes with an empty level followed by non-empty ones (dedicated stream)
+    lines = []
+    gapbases = ["0/0.0,0.1,1.0,1.1", "0,1/0.0,0.1,0.2,1.0,1.1,1.2,2.0,2.1,2.2;1,0/0.0,0.1,0.2,1.0,1.1,1.2,2.0,2.1,2.2"]
+    tries = 0
+    while len(gapbases) < (6 if quick else 30) and tries < 400:
+        tries += 1
+        b = rand_mesh_basis_line(rng)
+        if b and b not in gapbases and mesh_gap(b):
+            gapbases.append(b)
+    for b in gapbases:
+        for k in (1, 2, 4, 7):
+            lines.append("avhist N:c0:%s|F:c0:%d:g" % (b, k))
+    ctx.compare("mesh-gap-first", lines)
     # longer jumps back and forth on one class (compaction / spots still needed)
     lines = []
     for _ in range(300 if quick else 3000):
